@@ -96,6 +96,9 @@ TrChk ==
                      \* true rank is then 1/2n by the midpoint rule, resp. 1 - 1/2n); 10^-6 units
                      /\ ((n > 1 /\ Ev.cmin = 1) => Ev.rmin1e6 * n <= 1000000 + n)
                      /\ ((n > 1 /\ Ev.cmax = 1) => (1000000 - Ev.rmax1e6) * n <= 1000000 + n)
+                     \* ... whichever query comes first
+                     /\ ((n > 1 /\ Ev.cmin = 1) => Ev.rminf1e6 * n <= 1000000 + n)
+                     /\ ((n > 1 /\ Ev.cmax = 1) => (1000000 - Ev.rmaxf1e6) * n <= 1000000 + n)
      /\ On("C10") => (n > 0 =>
           /\ NonDecreasing(Ev.rs)                          \* rank monotone on the grid of v
           /\ \A i \in 1..Len(Ev.rs) : Ev.r0 <= Ev.rs[i] /\ Ev.rs[i] <= Ev.r1     \* in [0, 1]
